@@ -129,6 +129,14 @@ def ensure_streams(app: appboot.App):
     a = mp4synth.make_track("audio", 48000, [192512, 191488, 144384], samples_per_segment=[188, 187, 141], seed=142,
                             track_id=2, sample_durations_in="trun")
     mp4synth.register(app, "sy$n", "Synthetic, dollar in the directory", {"sydn_v1": v, "sydn_a1": a}, timing_from="sydn_v1")
+    # synmut: a stream whose stored media CHANGES during a run (C06 deletes synmut_v2 between two passes over the
+    # same manifest URLs: a static manifest describes the media stored NOW)
+    v1 = mp4synth.make_track("video", 240, [960, 960, 960], samples_per_segment=4, seed=151, track_id=1)
+    v2 = mp4synth.make_track("video", 240, [960, 960, 960], samples_per_segment=4, seed=152, track_id=1, payload_size=400)
+    a = mp4synth.make_track("audio", 48000, [192512, 191488, 192000], samples_per_segment=[188, 187, 187], seed=153,
+                            track_id=2, sample_durations_in="trun")
+    mp4synth.register(app, "synmut", "Synthetic, media changes", {"synmut_v1": v1, "synmut_v2": v2, "synmut_a1": a},
+                      timing_from="synmut_v1")
     # synday: a timing reference longer than a day (timescale 1, ten segments of 9600 s = 26 h 40 min) – durations
     # whose days component is not zero (static manifests only)
     v = mp4synth.make_track("video", 1, [9600] * 10, samples_per_segment=4, seed=111, track_id=1)
@@ -300,6 +308,20 @@ def event_id_overflow(manifest_url: str, mode: str, value: int, adv_d: int, trac
     end_ticks = (value - track.sn) * track.sd + 2 * (adv_d or track.sd)
     return any((end_ticks * ets // track.ts - start) // interval >= 2 ** 32
                for ets, interval, start, _ in _event_schedules(manifest_url))
+
+
+def delete_media_file(app, stream: str, name: str) -> bool:
+    """what the "delete media" page does (DeleteMedia.delete_model): discard a timing reference to the file,
+    delete the row, commit; the cached track table of the stream is dropped"""
+    with app.ctx() as models:
+        mf = models.MediaFile.get(name=name)
+        if mf is None:
+            return False
+        mf.stream.discard_timing_reference_to(mf.name)
+        models.db.session.delete(mf)
+        models.db.session.commit()
+    _TRACKS.pop(stream, None)
+    return True
 
 
 def iso(dt: datetime.datetime) -> str:
